@@ -35,6 +35,11 @@ type stats struct {
 	// ingredients of the non-trivial rule
 	nValues, nKinds      int
 	overlap, boundedMany bool
+	// what the in-memory Client sent (judged cases only), for the comparison
+	// with a real Agent serving an equal configuration
+	wire      []*gpb.SubscribeResponse
+	wireLimit int
+	det       bool
 }
 
 func (s *stats) label(l string) {
@@ -128,8 +133,46 @@ func pull(q *queue.UpdateQueue, budget int) (p pulled, violation error) {
 			return p, fmt.Errorf("pull %d: Next returned %v after it had reported the queue exhausted", k, v)
 		}
 		p.seq = append(p.seq, v)
+		// "Latest returns the maximum timestamp in the queue": every emission
+		// was queued, so Latest can never be behind it.
+		if l := q.Latest(); v.Timestamp != nil && v.Timestamp.Timestamp > l {
+			return p, fmt.Errorf("sync: pull %d: Latest() = %d after Next returned %v with timestamp %d", k, l, v.GetPath(), v.Timestamp.Timestamp)
+		}
 	}
 	return p, nil
+}
+
+// newQueue builds a generator from cfg: queue.New on the first split values,
+// UpdateQueue.Add for the others (split = len(cfg): New alone). After every
+// step Latest() must not be behind any initial timestamp handed over so far:
+// the fake client injects the sync marker at Latest(), and the marker has to
+// follow the first emission of every configured value.
+func (sc *Scenario) newQueue(cfg []*fpb.Value, split int) (*queue.UpdateQueue, error) {
+	if split < 0 || split > len(cfg) {
+		split = len(cfg)
+	}
+	q := queue.New(false, sc.Seed, cfg[:split])
+	check := func(upto int, after string) error {
+		l := q.Latest()
+		for i := 0; i < upto; i++ {
+			if t := sc.Values[i].t0(); t > l {
+				return fmt.Errorf("sync: Latest() = %d after %s, although value %d (%s/%s) is configured with initial timestamp %d: a sync marker injected at Latest() precedes its first emission", l, after, i, sc.Values[i].Kind, sc.Values[i].Dist, t)
+			}
+		}
+		return nil
+	}
+	if err := check(split, fmt.Sprintf("New with %d values", split)); err != nil {
+		return nil, err
+	}
+	for i := split; i < len(cfg); i++ {
+		q.Add(cfg[i])
+	}
+	if split < len(cfg) {
+		if err := check(len(cfg), fmt.Sprintf("New with %d values and Add of the other %d", split, len(cfg)-split)); err != nil {
+			return nil, err
+		}
+	}
+	return q, nil
 }
 
 func fromQueue(seq []*fpb.Value) ([]em, error) {
@@ -548,13 +591,18 @@ func overlapOf(ems []em, n int) (overlap, collide, interleaved bool) {
 		}
 	}
 	// a ... b ... a
-	for k := 2; k < len(ems) && !interleaved; k++ {
-		for j := 0; j < k-1; j++ {
-			if ems[j].idx == ems[k].idx && ems[k-1].idx != ems[k].idx && ems[j].idx >= 0 {
-				interleaved = true
-				break
-			}
+	// (an earlier emission of the same value that is not the directly preceding
+	// one; linear: large configurations emit thousands of updates)
+	before := make([]bool, n)
+	for k := 0; k < len(ems) && !interleaved; k++ {
+		i := ems[k].idx
+		if i < 0 || i >= n {
+			continue
 		}
+		if k >= 2 && before[i] && ems[k-1].idx != i {
+			interleaved = true
+		}
+		before[i] = true
 	}
 	return
 }
@@ -645,7 +693,11 @@ func run(sc *Scenario) (st *stats, err error) {
 	// ---- generator A ------------------------------------------------------------
 	pristine := sc.buildValues()
 	cfgA := sc.buildValues()
-	a, verr := pull(queue.New(false, sc.Seed, cfgA), budget)
+	qA, verr := sc.newQueue(cfgA, n)
+	if verr != nil {
+		return st, fmt.Errorf("queue: %v", verr)
+	}
+	a, verr := pull(qA, budget)
 	if verr != nil {
 		return st, fmt.Errorf("queue: %v", verr)
 	}
@@ -688,6 +740,7 @@ func run(sc *Scenario) (st *stats, err error) {
 	if jerr := sc.judge(emsA, a.exhausted, false, st); jerr != nil {
 		return st, jerr
 	}
+	sc.shapeLabels(emsA, st)
 	ov, col, inter := overlapOf(emsA, n)
 	st.overlap = ov
 	if ov {
@@ -763,6 +816,33 @@ func run(sc *Scenario) (st *stats, err error) {
 		st.label("clause-config-reuse-same-stream")
 	}
 
+	// ---- New on a part of the configuration, Add for the rest ----------------------------
+	if sc.Split >= 1 && sc.Split < n {
+		time.Sleep(time.Nanosecond)
+		qD, verr := sc.newQueue(sc.buildValues(), sc.Split)
+		if verr != nil {
+			return st, fmt.Errorf("queue: %v (New %d values + Add %d)", verr, sc.Split, n-sc.Split)
+		}
+		d, verr := pull(qD, budget)
+		if verr != nil {
+			return st, fmt.Errorf("queue: %v (New %d values + Add %d)", verr, sc.Split, n-sc.Split)
+		}
+		if d.err != nil {
+			return st, fmt.Errorf("queue (New %d values + Add %d): Next failed with %q, it did not when New was given the whole configuration", sc.Split, n-sc.Split, d.err)
+		}
+		emsD, cerr := fromQueue(d.seq)
+		if cerr != nil {
+			return st, fmt.Errorf("queue: %v (New %d values + Add %d)", cerr, sc.Split, n-sc.Split)
+		}
+		if anyUnbounded && len(d.seq) != budget {
+			return st, fmt.Errorf("queue: repeat: (New %d values + Add %d) %d pulls yielded %d emissions although an unbounded value is configured", sc.Split, n-sc.Split, budget, len(d.seq))
+		}
+		if jerr := sc.judge(emsD, d.exhausted, false, st); jerr != nil {
+			return st, fmt.Errorf("%v (generator built by New from the first %d values and Add for the other %d)", jerr, sc.Split, n-sc.Split)
+		}
+		st.label("clause-all-on-new-plus-add")
+	}
+
 	// ---- the agent's client on an in-memory stream -------------------------------------
 	// The client calls Next once more than the stream accepts responses; keep
 	// that at or below the number of pulls made above, so that whatever the
@@ -785,6 +865,7 @@ func run(sc *Scenario) (st *stats, err error) {
 	if jerr := sc.judge(emsW, ended, true, st); jerr != nil {
 		return st, jerr
 	}
+	st.wire, st.wireLimit, st.det = sent, limit, det
 	return st, nil
 }
 
